@@ -13,22 +13,22 @@ CHECKS = {
          "Source/destination pairs over a shared 8-name universe (incl. two dot-only/dot-leading names) so that every type pair collides x {dir-contents, always-replace, wildcards, trailing separator, nested not-yet-existing dst, non-directory source spelled 'x/.', directory onto a non-directory}; all 49 (src type, dst type, outcome) classes are observed. Where the statement is silent every outcome is accepted and counted. Held on the executions observed.",
          "Trusts the overlay model in c15.go (calibrated against the repository's copy tests).", "DESIGN.md §5 C15"),
  "C17": ("exploration", "runtime monitor: archive/tar reader over WriteTar's output compared member by member with the independently predicted view; independent round trip through GNU tar extraction and snapshot comparison",
-         "Generated trees (as C01, names >100 bytes, non-ASCII) x {unfiltered, include, exclude, both} x {on-disk FS, synthetic FS, SubDirFS with one or two sub-roots in prefix relation}; attribute names holding '=' and '%'. Views affected by K1 are not judged. Held on the executions observed.",
+         "Generated trees (as C01, names >100 bytes, non-ASCII) x {unfiltered, include, exclude, both} x {on-disk FS, synthetic FS, SubDirFS with one or two sub-roots in prefix relation}; attribute names holding '=' and '%'; a quarter of the exports follow a rewriting export of the same FS object. Views affected by K1 are not judged. Held on the executions observed.",
          "Trusts archive/tar, GNU tar 1.34 and the snapshot walker; mtime to the second.", "DESIGN.md §5 C17"),
  "C18": ("exploration", "runtime differential monitor: FollowLinks result vs an independent chroot-style resolver (40-link limit) for coverage, order, prefix-freeness and root collapse; Walk-call step bound for termination; end-to-end transfer with FollowPaths and re-resolution in the copy",
          "Link graphs (chains incl. 38-43 links, 21-25 two-link chains under one wildcard, cycles, self loops, growing cycles, '..' beyond the root, dangling, absolute) x request lists (shared prefixes, wildcards, missing paths). Termination decided by a step bound on FS.Walk calls, not by time. Held on the executions observed; known findings: lexically cleaned link targets (K2), middle wildcard ending in a link (K8), resolved target read as a pattern (K9).",
          "Trusts the reference resolver in internal/refs/resolver.go; wildcard requests: result shape, termination, and end-to-end presence of every match reached through real directories only.", "DESIGN.md §5 C18"),
  "C20": ("exploration", "runtime monitor: value round trips across the hand-optimised codec and the generic protobuf runtime in both directions, framing through util.NewProtoStream with fragmenting readers, aliasing monitor (read buffers poisoned after each RecvMsg), panic capture and allocation accounting (runtime.MemStats) on arbitrary inputs; Go native fuzz targets as an extra workload generator",
-         "Generated and mutated Stat/Packet values, packet sequences read back under 60 fragmentations incl. 1-byte reads, empty and >32 KiB packets, cut streams, arbitrary byte strings and frame streams (incl. a 4 GiB announcement in a memory-limited sub-process), valid non-canonical encodings, 24 streams received at once in one process. Held on the executions observed; known finding: invalid UTF-8 names are rejected by the generic runtime.",
+         "Generated and mutated Stat/Packet values, packet sequences read back under 60 fragmentations incl. 1-byte reads, empty and >32 KiB packets, cut streams, arbitrary byte strings and frame streams (incl. a 4 GiB announcement in a memory-limited sub-process), valid non-canonical encodings, 24 streams received at once in one process, messages beyond the 32-bit length prefix. Held on the executions observed; known finding: invalid UTF-8 names are rejected by the generic runtime.",
          "Trusts the independent field-wise comparator and reference framer in internal/codec; allocation measured single-threaded per child with repeat-and-minimum to damp GC noise.", "DESIGN.md §5 C20"),
  "C08": ("exploration", "Go race detector (halt_on_error) + overlap detector inside the harness stream (in-flight counters with seeded dwell) + outcome comparison across schedules of the same case; the quick workloads of the other transfer checks (fault plans, metadata-only, histories, copy, tar) repeated under the race detector",
          "Each fixed (source of 100-400 multi-chunk files, prior destination) case is run under schedules drawn from stream capacity x per-operation delays in stream calls, source reads and callbacks x GOMAXPROCS; outcomes (dest, REQ set, notifications with digests) must equal the reference schedule's up to the hard-link exception; any race report or overlapping SendMsg/RecvMsg on one endpoint is a violation. Held on the schedules observed (distinct interleaving fingerprints are counted).",
          "Only interleavings the Go runtime produced in the run; the race detector sees executed paths only; harness code is itself race-free (it runs under the same detector).", "DESIGN.md §5 C08"),
  "C03": ("exploration", "runtime monitor in a chroot jail: hostile packet scripts sent over real pipes to a receiver process; before/after snapshot (inode, mode, owner, mtime, ctime, bytes, xattrs) of everything outside dest; independent stream specification decides which scripts are malformed and which entries must not have been applied",
-         "Generated hostile scripts (every malformation class the statement lists, at every position of a valid STAT sequence; mode words with two type bits; hard links to inodes shared with the outside) against destinations full of outward symlinks, in normal/merge/metadata-only mode. Containment is checked on every script (also when the receiver crashes), rejection and not-applied-after-offence on malformed ones. Held on the executions observed.",
+         "Generated hostile scripts (every malformation class the statement lists, at every position of a valid STAT sequence; mode words with two type bits; hard links to inodes shared with the outside; the writer's temporary names planted as symlinks with the name generator pinned through the verif hook; receivers with a rejecting Filter; content after a terminator) against destinations full of outward symlinks, in normal/merge/metadata-only mode. Containment is checked on every script (also when the receiver crashes), rejection and not-applied-after-offence on malformed ones. Held on the executions observed.",
          "Trusts chroot(2) and the snapshot walker; single attacker (the peer), no concurrent local attacker; receiver crash counts as a failed call.", "DESIGN.md §5 C03, §4.6"),
  "C04": ("fault_enumeration", "fault injection at every operation index of a fixed transfer + structural quiescence detector (goroutine stack sampling) for termination and leaks + C01 oracle for false success + follow-up clean transfer; SIGKILL of a receiver process over real pipes",
-         "For a fixed 12-entry transfer every operation index of every fault class is enumerated (stream send/recv error and EOF on both endpoints, cancellation of either context, walk error, an entry vanishing between listing and lstat, read error at 5 offsets, hasher/notify error, SIGKILL of the receiver after k packets), plus sampled faults with >132 requests pending. Termination is decided structurally (teardown once, quiescence afterwards = violation), never by a timer. Held on the fault runs observed; plans whose operation was never reached are reported as not fired.",
+         "For a fixed 12-entry transfer every operation index of every fault class is enumerated (stream send/recv error and EOF on both endpoints, cancellation of either context, walk error, an entry vanishing between listing and lstat, an unreadable source root, read error at 5 offsets, hasher/notify error, SIGKILL of the receiver after k packets), plus sampled faults with >132 requests pending. No stream operation may start on an endpoint after its call returned. Termination is decided structurally (teardown once, quiescence afterwards = violation), never by a timer. Held on the fault runs observed; plans whose operation was never reached are reported as not fired.",
          "fsutil uses no timers (a quiescent process cannot progress on its own); teardown = both directions fail, and - in one of the two runs of every plan - both contexts cancelled (the other run keeps the contexts alive and uses a transport that ignores them); Open errors and receiver-side disk errors are not injected.", "DESIGN.md §5 C04, §4.7"),
  "C06": ("exploration", "online protocol monitor: an independent reference receiver (written from the protocol text) drives the real Send with request scripts and checks every emitted packet; progress callbacks recorded",
          "Source views x request scripts (any subset/order, bursts >132, requests racing the STAT stream, duplicate/unknown/non-file ids) x stream capacities and delays; STAT sequence compared with the independent snapshot, DATA reassembled per id and compared with the file bytes. Held on the sessions observed.",
@@ -37,19 +37,19 @@ CHECKS = {
          "STAT sequences (incl. fan-out of 350-900 files announced before the first answer) x prior destinations (incl. a directory of 140-400 entries that the sequence replaces by a looping / unenterable symlink) x DATA chunkings (1 B .. 1 MiB) x id interleavings x STAT/DATA races x early close x receiver options {rejecting Filter, unprivileged receiver}; REQ set compared with the identity model, final dest with the announced tree. Held on the sessions observed.",
          "Trusts the reference sender (refsend.go) to be conforming; identity model as C02.", "DESIGN.md §5 C07, §4.4"),
  "C11": ("exploration", "runtime monitor: STAT stream of the real Send over filtered views validated by an independent stream validator (order, parents, link targets), transfer into an empty dest compared with the reference-filtered source with re-canonicalised link groups, every regular file opened through the view",
-         "Trees with link groups straddling included/excluded paths x include/exclude/follow-path configurations x nested filter stacks (reference applied level by level), a quarter of the levels with a Map that rewrites owner and time stamp. Known finding K1 triaged as in C10. Held on the executions observed.",
+         "Trees with link groups straddling included/excluded paths x include/exclude/follow-path configurations x nested filter stacks (reference applied level by level), a quarter of the levels with a Map that rewrites owner and time stamp; hidden files opened under unclean spellings; a second, unfiltered transfer into the result. Known finding K1 triaged as in C10. Held on the executions observed.",
          "Reference filter as C10; follow-paths resolved by fsutil.FollowLinks itself (C18 checks it).", "DESIGN.md §5 C11"),
  "C13": ("exploration", "runtime differential monitor: snapshot(src) vs snapshot(dst) after fs.Copy under the statement's mask; option overrides evaluated independently (/bin/chmod for symbolic modes); change notifier calls recorded",
-         "Generated source trees (all types, link groups incl. special files, sockets and symlinks with several names, special bits, owners, ns mtimes, xattrs) x {whole tree, sub-directory, single file, single symlink} x option sets {chown, octal/symbolic mode, utime, xattr error handler, follow-links} x destination {plain, set-group-id directory of a foreign group}. Held on the executions observed.",
+         "Generated source trees (all types, link groups incl. special files, sockets and symlinks with several names, special bits, owners, ns mtimes, xattrs) x {whole tree, sub-directory, single file, single symlink} x option sets {chown, octal/symbolic mode, utime, xattr error handler, follow-links} x destination {plain, set-group-id directory of a foreign group} x destination root spellings; mount points below the source; wildcard copies with a requested time stamp. Held on the executions observed.",
          "Trusts the snapshot walker and /bin/chmod as evaluator of symbolic modes (both GNU and POSIX readings admitted where they differ); root.", "DESIGN.md §5 C13"),
  "C16": ("exploration", "runtime differential monitor: set of paths written by fs.Copy with include/exclude patterns vs naive reference filter vs fsutil.Walk with the same patterns; metadata of on-demand ancestors compared with the source directory",
-         "The trees and pattern grammar of C10 (a third with hard-link groups), into empty and populated destinations (incl. type-conflicting obstacles at unselected paths, with and without always-replace), and as an ordinary user over trees with directories it may not list; K1 triaged as in C10. Held on the executions observed.",
+         "The trees and pattern grammar of C10 (a third with hard-link groups; source root spelled unclean), into empty and populated destinations (incl. type-conflicting obstacles at unselected paths, with and without always-replace), and as an ordinary user over trees with directories it may not list; K1 triaged as in C10. Held on the executions observed.",
          "Reference filter as C10; root, and uid 1234 emulated by switching the effective uid/gid of the process.", "DESIGN.md §5 C16"),
  "C19": ("exploration", "runtime monitor: listing file decoded as little-endian length-prefixed records and compared with the STATs seen on the wire; dest minus listing compared with the projection of the source; REQ ids and notifications checked",
          "Trees (incl. listings of several 32 KiB chunks and a single stat larger than a chunk) x selectors x sources containing an entry named .fsutil-metadata x prior destinations holding a listing file/symlink/directory. Held on the executions observed.",
          "Selectors are closed under hard-link sources as the statement requires; identity model as C02.", "DESIGN.md §5 C19"),
  "C01": ("exploration", "runtime monitor: real Send+Receive over an instrumented in-memory stream; independent lstat/readlink/xattr/sha256 snapshot of dest compared with the expected tree (source view, identity-retention and merge-overlay models) under the statement's mask",
-         "Thousands of generated (source tree, prior destination, configuration) cases incl. unprivileged receiver, synthetic source, merge mode, dirty destinations; a violation is any demanded field that differs after both calls returned nil. Held on the executions observed.",
+         "Thousands of generated (source tree, prior destination, configuration) cases incl. unprivileged receiver, synthetic source, merge mode, dirty destinations; a violation is any demanded field that differs after both calls returned nil. Held on the executions observed; known finding: mtimes outside the int64 nanosecond window (K10).",
          "Trusts the independent snapshot walker (x/sys/unix) and the expectation models in c01.go; Linux, root, tmpfs/ext4 with mknod+xattrs; unprivileged receiver emulated by switching euid/egid.", "DESIGN.md §5 C01"),
  "C02": ("exploration", "runtime monitor over edit histories: REQ ids from the packet log mapped through the STAT sequence and compared with the identity model; inode/bytes of untouched entries compared before/after",
          "Generated edit histories (incl. single-field edits, unchanged re-syncs, DiffNone rounds, a non-idempotent rewriting Filter); requests must equal the set the identity model computes, untouched entries keep their inode and bytes, an unchanged re-sync sends no request and no notification. Held on the executions observed.",
@@ -57,7 +57,7 @@ CHECKS = {
  "C05": ("exploration", "runtime monitor: every NotifyHashed call recorded and checked against a notification model (apply events to old snapshot == new snapshot; exactly-once per changed path; no unchanged path; deletes == top-most removed paths; digests recomputed from the stat on the wire and the bytes in dest)",
          "Generated edit histories incl. pure directory metadata edits, synthetic sources announcing more bytes than they send, adjacent deleted directories, subtree deletions, type swaps, out-of-order content completion. Held on the executions observed.",
          "Trusts the notification model in c05.go and the harness hasher; add vs modify not demanded; hard-link timing exception as in C02.", "DESIGN.md §5 C05"),
- "C09": ("exploration", "runtime differential monitor: callback sequences of Walk/WalkDir/FS.Walk(sub-target)/SubDirFS vs an independent recursive lstat listing sorted component-wise",
+ "C09": ("exploration", "runtime differential monitor: callback sequences of Walk/WalkDir/FS.Walk(sub-target)/SubDirFS vs an independent recursive lstat listing sorted component-wise; link names on procfs/sysfs vs an independent readlink",
          "Generated trees over an adversarial name pool (bytes below and above '/', 255-byte names), all entry types, hard-link groups, depth<=6; every reported stat is compared field by field. Held on the executions observed.",
          "Trusts the snapshot walker and tree.CmpPath; root; link names demanded for regular files only.", "DESIGN.md §5 C09"),
  "C10": ("exploration", "runtime differential monitor: filtered fsutil.WalkDir callback sequence vs naive per-entry reference filter (fresh matcher on the full listing + ancestors); map-function clauses checked on the recorded map/report event sequence",
